@@ -24,6 +24,7 @@ PLANS = {
     "C12": {"level": "exploration", "exhaustive": False, "replay_flavour": "race",
             "legs": [leg("main", flavour="race", race_is_violation=True, batches={"quick": 4, "thorough": 32}, parallel=4,
                          timeout={"quick": 600, "thorough": 3000})]},
+    "C13": {"level": "fault_enumeration", "exhaustive": False, "legs": [leg("main", timeout={"quick": 900, "thorough": 3000}), leg("race", flavour="race", tiers=("thorough",), env={"VERIF_SMALL": "1"})]},
     "C14": {"level": "fault_enumeration", "exhaustive": False, "legs": [leg("main"), leg("race", flavour="race", tiers=("thorough",), env={"VERIF_SMALL": "1"})]},
     "C15": {"level": "exploration", "exhaustive": False, "legs": [leg("main")]},
     "C16": {"level": "exploration", "exhaustive": False, "legs": [leg("main")]},
